@@ -592,3 +592,40 @@ def field_stores(prog, field_suffix, crate="abyssiniandb"):
                 if s["s"] == "assign" and s["lhs"]["p"] and s["lhs"]["p"][-1].startswith("f:") and s["lhs"]["p"][-1].endswith(field_suffix):
                     out.append((fn, b, s))
     return out
+
+
+def stored_value_sources(prog, fn, stop_module, depth=0, op=None, at=None):
+    """Where the Ok value a function returns comes from, looking through pass-through crate calls (the callee's result
+    returned unchanged, `?`/`Ok(..)`/`map(Ctor)` aside) down to functions of `stop_module` (the field codec layer).
+    Returns a set of function ids, or strings 'other:<kind>' for anything that is not such a pass-through."""
+    out = set()
+    if depth > 6:
+        return {"other:depth"}
+    tr = tracer(prog, fn)
+    os_ = tr.place({"l": 0, "p": []}) if op is None else origins(prog, fn, op, at=at)
+    for o in os_:
+        if o.kind == "agg" and o.data.get("variant") in ("Ok",) and o.data.get("ops"):
+            out |= stored_value_sources(prog, fn, stop_module, depth + 1, op=o.data["ops"][0], at=o.block)
+            continue
+        if o.kind == "call":
+            if [p_ for p_ in o.proj if p_ not in ("?ok",)]:
+                out.add("other:projection")
+                continue
+            tg, ext = prog.targets(o.data, fn)
+            cal = o.data.get("callee") or ""
+            if cal.endswith(("from_residual",)):
+                continue    # error propagation
+            if not tg:
+                if cal.rsplit("::", 1)[-1] in ("map_err", "inspect_err", "or_else") and o.data.get("args"):
+                    out |= stored_value_sources(prog, fn, stop_module, depth + 1, op=o.data["args"][0], at=o.block)   # Ok value untouched
+                    continue
+                out.add("other:extern:" + cal.rsplit("::", 1)[-1])
+                continue
+            for x in tg:
+                if x.module == stop_module or x.crate != "abyssiniandb":
+                    out.add(x.id)
+                else:
+                    out |= stored_value_sources(prog, x, stop_module, depth + 1)
+            continue
+        out.add("other:" + o.kind)
+    return out
